@@ -1,4 +1,449 @@
-import SafeC.Models.Copy
-/-! Property theorems for C18 (see DESIGN.md §4). -/
+import SafeC.Proofs.Erase
+/-!
+# C18 — secure erase really erases (the value/extent half)
+
+*After `memset_s`, `memzero_s` (and the 16/32-bit and `strzero_s` variants) return success, the `n` (or
+`dmax`) addressed bytes hold the fill value …; no more than the requested bytes are changed.*
+
+What is proved here, for ALL lengths, start addresses (hence every alignment of the prologue / 16-way
+unrolled body / tail of the primitives), fill values, `dmax`, object sizes and prior memory contents:
+a successful call leaves `Erased st st' dest n v` — each of the `n` addressed cells holds the
+(truncated) fill value, every other cell of the memory is unchanged, no stray access, no handler
+event.  On failure: what the doc comments promise (`*_fail`).
+
+What is NOT (and cannot be) proved here: that a compiler keeps these stores when the buffer is dead
+in the caller.  In the machine every `store` is an observable effect; the check validates that
+assumption separately on real builds (tools/p18.py, "assumption validator").
+
+Where the full statement is false of the code the hypothesis the proof forces is explicit, and a
+`*_witness` shows the excluded point:
+* with a known object size (`destbos = some b`) `memset_s`/`memset16_s`/`memset32_s` drop the
+  `RSIZE_MAX_MEM` test, and the primitives take a `uint32_t` length: `n ≥ 2^32` erases `n mod 2^32`
+  cells and reports success (`memset_s_C18_bos_witness`; known finding `memset-bos-n-truncated`);
+* `memzero16_s`/`memzero32_s` compute `len * 2` / `len * 4` without overflow check
+  (`memzero16_s_C18_wrap_witness`; no real object can be that large: the hypothesis `len < 2^32` is
+  implied by any true declaration);
+* `strzero_s` built with SAFECLIB_STR_NULL_SLACK reads `dest[dmax]` when there is no NUL inside
+  `dmax` cells (`strzero_s_C18_witness`: the erase is complete but the call faults instead of
+  returning; known finding C02 `read-before-bound`).
+-/
 namespace SafeC.Props.C18
+open SafeC Gen Mem
+
+/-! ## the primitives -/
+
+/-- `mem_prim_set(dest, len, value)` (the 64-bit variant that is compiled: byte prologue up to 8-alignment,
+blocks of 16 qword stores, `case 15…1` chain, byte tail), for every `dest`, `len`, `value` and memory
+in which the `len mod 2^32` addressed cells are writable: the call returns, each of those cells holds
+`(uint8_t)value`, every other cell is unchanged, no stray access. -/
+theorem mem_prim_set_C18 (dest len value : Nat) (st : St) (hw : RW st dest (len % U32)) :
+    ∃ st', exec (mem_prim_set 1 dest len value) st = .ok ((), st') ∧
+      Erased st st' dest (len % U32) (value % 256) := by
+  obtain ⟨st', he, hf⟩ := mem_prim_set_ok dest len value st hw
+  exact ⟨st', he, hf.erased⟩
+
+/-- `mem_prim_set16(dest, len, value)`: every `len`, `dest`, `value`: exactly the `len mod 2^32`
+addressed 16-bit cells hold `(uint16_t)value`. -/
+theorem mem_prim_set16_C18 (dest len value : Nat) (st : St) (hw : RW st dest (len % U32)) :
+    ∃ st', exec (mem_prim_set16 dest len value) st = .ok ((), st') ∧
+      Erased st st' dest (len % U32) (value % 2^16) := by
+  obtain ⟨st', he, hf⟩ := mem_prim_set16_ok dest len value st hw
+  exact ⟨st', he, hf.erased⟩
+
+/-- `mem_prim_set32(dest, len, value)`: every `len`, `dest`, `value`: exactly the `len mod 2^32`
+addressed 32-bit cells hold `(uint32_t)value`. -/
+theorem mem_prim_set32_C18 (dest len value : Nat) (st : St) (hw : RW st dest (len % U32)) :
+    ∃ st', exec (mem_prim_set32 dest len value) st = .ok ((), st') ∧
+      Erased st st' dest (len % U32) (value % 2^32) := by
+  obtain ⟨st', he, hf⟩ := mem_prim_set32_ok dest len value st hw
+  exact ⟨st', he, hf.erased⟩
+
+/-- a concrete memory for the non-vacuity examples: 4 KiB writable at 1000, everything mapped -/
+def exSt : St :=
+  { data := fun a => a % 251 + 1, mapped := fun _ => true, rd := fun _ => true,
+    wr := fun a => decide (1000 ≤ a ∧ a < 5096) }
+
+theorem exSt_rw (d k : Nat) (h1 : 1000 ≤ d) (h2 : d + k ≤ 5096) : RW exSt d k := by
+  intro i hi
+  refine ⟨rfl, ?_, rfl⟩
+  simp only [exSt, decide_eq_true_eq]
+  omega
+
+example : RW exSt 1003 (165 % U32) := exSt_rw _ _ (by decide) (by decide)
+
+/-! ## `memset_s` -/
+
+theorem RSIZE_MAX_MEM_lt_U32 : RSIZE_MAX_MEM < U32 := by decide
+
+/-- **memset_s, object size unknown to the library (full statement).**  For all `dest`, `dmax`, `value`,
+`n` and every memory whose `dmax` cells at `dest` are writable: the call returns; if it returns EOK
+then exactly the `n` cells `dest[0..n)` hold `(unsigned char)value`, every other cell is unchanged,
+there was no stray access and no handler call. -/
+theorem memset_s_C18 (dest dmax value n : Nat) (st : St) (hw : RW st dest dmax) :
+    ∃ code st', exec (memset_s dest dmax value n none) st = .ok (code, st') ∧
+      (code = EOK → Erased st st' dest n (value % 256)) := by
+  obtain ⟨code, st', he, ho, hiff⟩ := memset_s_spec dest dmax value n none st hw
+  refine ⟨code, st', he, fun hc => ?_⟩
+  obtain ⟨hf, hle⟩ := ho.ok hc
+  have hn : n % U32 = n := by
+    rcases (hiff.1 hc).2 with h0 | ⟨hm, _, hnd⟩
+    · subst h0; rfl
+    · have h1 : dmax ≤ RSIZE_MAX_MEM := hm
+      have h2 : n ≤ dmax := hnd
+      have := RSIZE_MAX_MEM_lt_U32
+      exact Nat.mod_eq_of_lt (by omega)
+  rw [hn] at hf
+  exact hf.erased
+
+example : RW exSt 1001 160 := exSt_rw _ _ (by decide) (by decide)
+
+/-- **memset_s, object size `b` known to the library (partial: `n < 2^32`).**  The `b` cells of the
+object are writable (the caller's `dmax` may be smaller: the code replaces it by `b`, known finding
+`memset-bos-widens-dmax`; the bytes REQUESTED are `n`).  If the call returns EOK and `n < 2^32` then
+exactly the `n` cells `dest[0..n)` hold `(unsigned char)value` and nothing else changed. -/
+theorem memset_s_C18_bos_partial (dest dmax value n b : Nat) (st : St) (hw : RW st dest b)
+    (hn : n < U32) :
+    ∃ code st', exec (memset_s dest dmax value n (some b)) st = .ok (code, st') ∧
+      (code = EOK → Erased st st' dest n (value % 256)) := by
+  obtain ⟨code, st', he, ho, _⟩ := memset_s_spec dest dmax value n (some b) st hw
+  refine ⟨code, st', he, fun hc => ?_⟩
+  have hf := (ho.ok hc).1
+  rw [Nat.mod_eq_of_lt hn] at hf
+  exact hf.erased
+
+example : RW exSt 1001 160 ∧ (100 : Nat) < U32 := ⟨exSt_rw _ _ (by decide) (by decide), by decide⟩
+
+/-- return code and one cell of the final memory (a decidable observation of a run) -/
+def observe (r : Except Fault (Nat × St)) (a : Nat) : Option (Nat × Nat) :=
+  match r with
+  | .ok (c, s) => some (c, s.data a)
+  | .error _ => none
+
+/-- everything mapped and writable, every cell holds 88 -/
+def wSt : St := { data := fun _ => 88, mapped := fun _ => true, rd := fun _ => true, wr := fun _ => true }
+
+/-- the point the partial statement excludes: an object of `2^32 + 2` bytes whose size the compiler
+knows, `memset_s(dest, 2^32+2, 0, 2^32+2)`: EOK, but only `n mod 2^32 = 2` bytes were written: cell 1
+is 0, cell 2 still holds its old value. -/
+theorem memset_s_C18_bos_witness :
+    observe (exec (memset_s 4096 (2^32 + 2) 0 (2^32 + 2) (some (2^32 + 2))) wSt) (4096 + 2) = some (EOK, 88) ∧
+    observe (exec (memset_s 4096 (2^32 + 2) 0 (2^32 + 2) (some (2^32 + 2))) wSt) (4096 + 1) = some (EOK, 0) := by
+  decide
+
+/-- **memset_s on failure** (any object-size knowledge; `D` = the object size if known, else `dmax`):
+a code other than EOK comes with exactly one mem-handler event carrying that code, no stray access,
+and the memory is either untouched or — the `n > D` violation — its first `D mod 2^32` cells hold the
+value (C11 K.3.7.4.1: "stores the value into every character of the first dmax characters"). -/
+theorem memset_s_C18_fail (dest dmax value n : Nat) (destbos : Bos) (st : St)
+    (hw : RW st dest (destbos.getD dmax)) :
+    ∃ code st', exec (memset_s dest dmax value n destbos) st = .ok (code, st') ∧
+      (code ≠ EOK →
+        st'.events = st.events ++ [.handler .mem code] ∧ st'.strays = st.strays ∧
+        (st'.data = st.data ∨
+         (destbos.getD dmax < n ∧ ∀ a, st'.data a =
+            if dest ≤ a ∧ a < dest + destbos.getD dmax % U32 then value % 256 else st.data a))) := by
+  obtain ⟨code, st', he, ho, _⟩ := memset_s_spec dest dmax value n destbos st hw
+  refine ⟨code, st', he, fun hc => ?_⟩
+  obtain ⟨hf, hd⟩ := ho.fail hc
+  exact ⟨hf.events, hf.strays, hd⟩
+
+/-- **memset_s succeeds exactly when its documented preconditions hold** (`dest` non-null, and `n = 0`
+or: `dmax` within the limit / the known object, `value ≤ 255` as a C int, `n` within `D`), where with a
+known object size `D` is that size and not `dmax` (the known finding). -/
+theorem memset_s_C18_success_iff (dest dmax value n : Nat) (destbos : Bos) (st : St)
+    (hw : RW st dest (destbos.getD dmax)) :
+    ∃ code st', exec (memset_s dest dmax value n destbos) st = .ok (code, st') ∧
+      (code = EOK ↔ dest ≠ 0 ∧ (n = 0 ∨
+        (memDmaxOk dmax destbos ∧ asInt value ≤ 255 ∧ n ≤ destbos.getD dmax))) := by
+  obtain ⟨code, st', he, _, hiff⟩ := memset_s_spec dest dmax value n destbos st hw
+  exact ⟨code, st', he, hiff⟩
+
+/-! ## `memset16_s`, `memset32_s` (`dmax` in bytes, `n` in elements; cells are elements) -/
+
+/-- **memset16_s, object size unknown (full).**  The `dmax / 2` elements at `dest` are writable.  EOK
+implies exactly the `n` elements `dest[0..n)` hold `(uint16_t)value`, nothing else changed. -/
+theorem memset16_s_C18 (dest dmax value n : Nat) (st : St) (hw : RW st dest (dmax / 2)) :
+    ∃ code st', exec (memset16_s dest dmax value n none) st = .ok (code, st') ∧
+      (code = EOK → Erased st st' dest n (value % 2^16)) := by
+  obtain ⟨code, st', he, ho, hiff⟩ := memset16_s_spec dest dmax value n none st hw
+  refine ⟨code, st', he, fun hc => ?_⟩
+  obtain ⟨hf, hle⟩ := ho.ok hc
+  have hn : n % U32 = n := by
+    rcases (hiff.1 hc).2 with h0 | ⟨hm, hnd⟩
+    · subst h0; rfl
+    · have h1 : dmax ≤ RSIZE_MAX_MEM := hm
+      have h2 : n ≤ dmax / 2 := hnd
+      have := RSIZE_MAX_MEM_lt_U32
+      exact Nat.mod_eq_of_lt (by omega)
+  rw [hn] at hf
+  exact hf.erased
+
+/-- **memset16_s, object size `b` bytes known (partial: `n < 2^32`).** -/
+theorem memset16_s_C18_bos_partial (dest dmax value n b : Nat) (st : St) (hw : RW st dest (b / 2))
+    (hn : n < U32) :
+    ∃ code st', exec (memset16_s dest dmax value n (some b)) st = .ok (code, st') ∧
+      (code = EOK → Erased st st' dest n (value % 2^16)) := by
+  obtain ⟨code, st', he, ho, _⟩ := memset16_s_spec dest dmax value n (some b) st hw
+  refine ⟨code, st', he, fun hc => ?_⟩
+  have hf := (ho.ok hc).1
+  rw [Nat.mod_eq_of_lt hn] at hf
+  exact hf.erased
+
+/-- the excluded point for the 16-bit twin: object of `2^32 + 2` elements (`2^33 + 4` bytes) of known size:
+EOK, element 1 set, element 2 untouched. -/
+theorem memset16_s_C18_bos_witness :
+    observe (exec (memset16_s 4096 (2^33 + 4) 0 (2^32 + 2) (some (2^33 + 4))) wSt) (4096 + 2) = some (EOK, 88) ∧
+    observe (exec (memset16_s 4096 (2^33 + 4) 0 (2^32 + 2) (some (2^33 + 4))) wSt) (4096 + 1) = some (EOK, 0) := by
+  decide
+
+/-- **memset32_s, object size unknown (full).**  The `dmax / 4` elements at `dest` are writable.  EOK
+implies exactly the `n` elements `dest[0..n)` hold `(uint32_t)value`, nothing else changed. -/
+theorem memset32_s_C18 (dest dmax value n : Nat) (st : St) (hw : RW st dest (dmax / 4)) :
+    ∃ code st', exec (memset32_s dest dmax value n none) st = .ok (code, st') ∧
+      (code = EOK → Erased st st' dest n (value % 2^32)) := by
+  obtain ⟨code, st', he, ho, hiff⟩ := memset32_s_spec dest dmax value n none st hw
+  refine ⟨code, st', he, fun hc => ?_⟩
+  obtain ⟨hf, hle⟩ := ho.ok hc
+  have hn : n % U32 = n := by
+    rcases (hiff.1 hc).2 with h0 | ⟨hm, hnd⟩
+    · subst h0; rfl
+    · have h1 : dmax ≤ RSIZE_MAX_MEM := hm
+      have h2 : n ≤ dmax / 4 := hnd
+      have := RSIZE_MAX_MEM_lt_U32
+      exact Nat.mod_eq_of_lt (by omega)
+  rw [hn] at hf
+  exact hf.erased
+
+/-- **memset32_s, object size `b` bytes known (partial: `n < 2^32`).** -/
+theorem memset32_s_C18_bos_partial (dest dmax value n b : Nat) (st : St) (hw : RW st dest (b / 4))
+    (hn : n < U32) :
+    ∃ code st', exec (memset32_s dest dmax value n (some b)) st = .ok (code, st') ∧
+      (code = EOK → Erased st st' dest n (value % 2^32)) := by
+  obtain ⟨code, st', he, ho, _⟩ := memset32_s_spec dest dmax value n (some b) st hw
+  refine ⟨code, st', he, fun hc => ?_⟩
+  have hf := (ho.ok hc).1
+  rw [Nat.mod_eq_of_lt hn] at hf
+  exact hf.erased
+
+example : RW exSt 1001 (320 / 2) ∧ RW exSt 1001 (640 / 4) :=
+  ⟨exSt_rw _ _ (by decide) (by decide), exSt_rw _ _ (by decide) (by decide)⟩
+
+/-- **memset16_s / memset32_s on failure**: one mem-handler event with the returned code, no stray
+access, memory untouched or (the `n > D/w` violation) the first `D/w` elements set. -/
+theorem memset16_s_C18_fail (dest dmax value n : Nat) (destbos : Bos) (st : St)
+    (hw : RW st dest (destbos.getD dmax / 2)) :
+    ∃ code st', exec (memset16_s dest dmax value n destbos) st = .ok (code, st') ∧
+      (code ≠ EOK →
+        st'.events = st.events ++ [.handler .mem code] ∧ st'.strays = st.strays ∧
+        (st'.data = st.data ∨
+         (destbos.getD dmax / 2 < n ∧ ∀ a, st'.data a =
+            if dest ≤ a ∧ a < dest + destbos.getD dmax / 2 % U32 then value % 2^16 else st.data a))) := by
+  obtain ⟨code, st', he, ho, _⟩ := memset16_s_spec dest dmax value n destbos st hw
+  refine ⟨code, st', he, fun hc => ?_⟩
+  obtain ⟨hf, hd⟩ := ho.fail hc
+  exact ⟨hf.events, hf.strays, hd⟩
+
+/-- see `memset16_s_C18_fail` -/
+theorem memset32_s_C18_fail (dest dmax value n : Nat) (destbos : Bos) (st : St)
+    (hw : RW st dest (destbos.getD dmax / 4)) :
+    ∃ code st', exec (memset32_s dest dmax value n destbos) st = .ok (code, st') ∧
+      (code ≠ EOK →
+        st'.events = st.events ++ [.handler .mem code] ∧ st'.strays = st.strays ∧
+        (st'.data = st.data ∨
+         (destbos.getD dmax / 4 < n ∧ ∀ a, st'.data a =
+            if dest ≤ a ∧ a < dest + destbos.getD dmax / 4 % U32 then value % 2^32 else st.data a))) := by
+  obtain ⟨code, st', he, ho, _⟩ := memset32_s_spec dest dmax value n destbos st hw
+  refine ⟨code, st', he, fun hc => ?_⟩
+  obtain ⟨hf, hd⟩ := ho.fail hc
+  exact ⟨hf.events, hf.strays, hd⟩
+
+/-! ## `memzero_s`, `memzero16_s`, `memzero32_s` -/
+
+/-- **memzero_s (full, any object-size knowledge).**  The `len` cells at `dest` are writable.  EOK
+implies exactly the `len` cells are 0 and nothing else changed; any other code: one mem-handler event
+with that code and the memory is untouched ("the operation is not performed"); EOK exactly when
+`dest` is non-null, `len` non-zero and within the limit / the known object. -/
+theorem memzero_s_C18 (dest len : Nat) (destbos : Bos) (st : St) (hw : RW st dest len) :
+    ∃ code st', exec (memzero_s dest len destbos) st = .ok (code, st') ∧
+      (code = EOK → Erased st st' dest len 0) ∧
+      (code ≠ EOK → Untouched .mem st st' code) ∧
+      (code = EOK ↔ dest ≠ 0 ∧ len ≠ 0 ∧ memDmaxOk len destbos) := by
+  obtain ⟨code, st', he, ho, hiff⟩ := memzero_s_spec dest len destbos st hw
+  refine ⟨code, st', he, fun hc => (ho.ok hc).erased, fun hc => ?_, hiff⟩
+  obtain ⟨hf, hd⟩ := ho.fail hc
+  exact ⟨hd, hf.strays, hf.events, hf.mapped, hf.wr, hf.rd⟩
+
+example : RW exSt 1007 160 := exSt_rw _ _ (by decide) (by decide)
+
+/-- **memzero16_s (partial: `len < 2^32`, which every true declaration satisfies).**  EOK implies exactly
+the `len` 16-bit cells are 0; failure leaves the memory untouched and reports once. -/
+theorem memzero16_s_C18_partial (dest len : Nat) (destbos : Bos) (st : St) (hw : RW st dest len)
+    (hlen : len < U32) :
+    ∃ code st', exec (memzero16_s dest len destbos) st = .ok (code, st') ∧
+      (code = EOK → Erased st st' dest len 0) ∧
+      (code ≠ EOK → Untouched .mem st st' code) := by
+  have hm := Nat.mod_eq_of_lt hlen
+  obtain ⟨code, st', he, ho, _⟩ := memzero16_s_spec dest len destbos st (by rw [hm]; exact hw)
+  refine ⟨code, st', he, fun hc => ?_, fun hc => ?_⟩
+  · have := (ho.ok hc).erased
+    rwa [hm] at this
+  · obtain ⟨hf, hd⟩ := ho.fail hc
+    exact ⟨hd, hf.strays, hf.events, hf.mapped, hf.wr, hf.rd⟩
+
+/-- **memzero32_s (partial: `len < 2^32`).** -/
+theorem memzero32_s_C18_partial (dest len : Nat) (destbos : Bos) (st : St) (hw : RW st dest len)
+    (hlen : len < U32) :
+    ∃ code st', exec (memzero32_s dest len destbos) st = .ok (code, st') ∧
+      (code = EOK → Erased st st' dest len 0) ∧
+      (code ≠ EOK → Untouched .mem st st' code) := by
+  have hm := Nat.mod_eq_of_lt hlen
+  obtain ⟨code, st', he, ho, _⟩ := memzero32_s_spec dest len destbos st (by rw [hm]; exact hw)
+  refine ⟨code, st', he, fun hc => ?_, fun hc => ?_⟩
+  · have := (ho.ok hc).erased
+    rwa [hm] at this
+  · obtain ⟨hf, hd⟩ := ho.fail hc
+    exact ⟨hd, hf.strays, hf.events, hf.mapped, hf.wr, hf.rd⟩
+
+/-- with the object size unknown the hypothesis `len < 2^32` follows from "the byte size `2 * len`
+does not wrap around 2^64" whenever the call succeeds: the limit test bounds it. -/
+theorem memzero16_s_C18_nowrap (dest len : Nat) (st : St) (hw : RW st dest len) (hnw : len * 2 < U64) :
+    ∃ code st', exec (memzero16_s dest len none) st = .ok (code, st') ∧
+      (code = EOK → Erased st st' dest len 0) := by
+  by_cases hlen : len < U32
+  · obtain ⟨code, st', he, hok, _⟩ := memzero16_s_C18_partial dest len none st hw hlen
+    exact ⟨code, st', he, hok⟩
+  · have hw' : RW st dest (len % U32) := fun i hi => hw i (by have := Nat.mod_le len U32; omega)
+    obtain ⟨code, st', he, _, hiff⟩ := memzero16_s_spec dest len none st hw'
+    refine ⟨code, st', he, fun hc => ?_⟩
+    have h1 : (len * 2) % U64 ≤ RSIZE_MAX_MEM := (hiff.1 hc).2.2
+    rw [Nat.mod_eq_of_lt hnw] at h1
+    have := RSIZE_MAX_MEM_lt_U32
+    omega
+
+/-- the excluded point: `memzero16_s(dest, 2^63 + 1)` — the byte size wraps to 2, the call returns EOK
+having zeroed one element; element 1 keeps its value.  (No real object has 2^63 elements.) -/
+theorem memzero16_s_C18_wrap_witness :
+    observe (exec (memzero16_s 4096 (2^63 + 1) none) wSt) (4096 + 1) = some (EOK, 88) ∧
+    observe (exec (memzero16_s 4096 (2^63 + 1) none) wSt) 4096 = some (EOK, 0) := by
+  decide
+
+/-- the excluded point that a real caller can reach: an object of `2^32 + 2` 16-bit elements whose size is
+known (`destbos = 2^33 + 4` bytes): `memzero16_s(dest, 2^32 + 2)` returns EOK after zeroing 2 elements. -/
+theorem memzero16_s_C18_bos_witness :
+    observe (exec (memzero16_s 4096 (2^32 + 2) (some (2^33 + 4))) wSt) (4096 + 2) = some (EOK, 88) ∧
+    observe (exec (memzero16_s 4096 (2^32 + 2) (some (2^33 + 4))) wSt) (4096 + 1) = some (EOK, 0) := by
+  decide
+
+example : RW exSt 1001 160 ∧ (160 : Nat) < U32 := ⟨exSt_rw _ _ (by decide) (by decide), by decide⟩
+
+/-! ## `strzero_s` -/
+
+/-- **strzero_s (partial: there is a NUL among the `dmax` cells).**  `dest[0..m)` are non-NUL, `dest[m]`
+is NUL, `m < dmax`, the `dmax` cells are writable.  EOK implies: built with SAFECLIB_STR_NULL_SLACK
+all `dmax` cells are 0; built without, exactly the `m` characters of the string are 0 ("nulls … until
+the terminating NULL"); nothing else changed.  Failure: one str-handler event, memory untouched. -/
+theorem strzero_s_C18_partial (cfg : Cfg) (dest dmax m : Nat) (destbos : Bos) (st : St)
+    (hw : RW st dest dmax) (hm : m < dmax)
+    (hnz : ∀ j, j < m → st.data (dest + j) ≠ 0) (hz : st.data (dest + m) = 0) :
+    ∃ code st', exec (strzero_s cfg dest dmax destbos) st = .ok (code, st') ∧
+      (code = EOK → Erased st st' dest (if cfg.slack then dmax else m) 0) ∧
+      (code ≠ EOK → Untouched .str st st' code) ∧
+      (code = EOK ↔ dest ≠ 0 ∧ dmax ≠ 0 ∧ strDmaxOk dmax destbos) := by
+  obtain ⟨code, st', he, hok, hfail, hiff⟩ :=
+    strzero_s_spec cfg dest dmax m destbos st hw (by omega) hnz (Or.inl ⟨hm, hz⟩)
+  refine ⟨code, st', he, fun hc => (hok hc).erased, fun hc => ?_, hiff⟩
+  have hf := hfail hc
+  exact ⟨hf.data, hf.strays, hf.events, hf.mapped, hf.wr, hf.rd⟩
+
+/-- **strzero_s, no NUL among the `dmax` cells**: all `dmax` cells are zeroed and EOK is returned,
+provided — in a SAFECLIB_STR_NULL_SLACK build — the cell BEHIND the buffer, `dest[dmax]`, is mapped
+and declared readable (the slack block's `if (!*dest)` looks at it). -/
+theorem strzero_s_C18_unterminated (cfg : Cfg) (dest dmax : Nat) (destbos : Bos) (st : St)
+    (hw : RW st dest dmax) (hnz : ∀ j, j < dmax → st.data (dest + j) ≠ 0)
+    (hnext : cfg.slack = true → st.mapped (dest + dmax) = true ∧ st.rd (dest + dmax) = true) :
+    ∃ code st', exec (strzero_s cfg dest dmax destbos) st = .ok (code, st') ∧
+      (code = EOK → Erased st st' dest dmax 0) := by
+  obtain ⟨code, st', he, hok, _, _⟩ :=
+    strzero_s_spec cfg dest dmax dmax destbos st hw (Nat.le_refl _) hnz (Or.inr ⟨rfl, hnext⟩)
+  refine ⟨code, st', he, fun hc => ?_⟩
+  have := (hok hc).erased
+  cases hs : cfg.slack <;> simpa [hs] using this
+
+/-- the fault a run ended with, if any -/
+def faultOf (r : Except Fault (Nat × St)) : Option Fault :=
+  match r with
+  | .error f => some f
+  | .ok _ => none
+
+/-- four non-NUL cells at 100, exactly those mapped and writable -/
+def uSt : St :=
+  { data := fun _ => 65, mapped := fun a => decide (100 ≤ a ∧ a < 104), rd := fun a => decide (100 ≤ a ∧ a < 104),
+    wr := fun a => decide (100 ≤ a ∧ a < 104) }
+
+/-- the excluded point: an exact-fit unterminated array ending at an unmapped cell, null-slack build:
+the run does not return — read fault at `dest[dmax]`. -/
+theorem strzero_s_C18_witness :
+    faultOf (exec (strzero_s { slack := true } 100 4 none) uSt) = some (.read 104) := by
+  decide
+
+/-- a terminated string "abc" in a dirty 8-cell buffer at 1000 -/
+def sSt : St :=
+  { exSt with data := fun a => if a = 1003 then 0 else 97 }
+
+example : RW sSt 1000 8 ∧ 3 < 8 ∧ (∀ j, j < 3 → sSt.data (1000 + j) ≠ 0) ∧ sSt.data (1000 + 3) = 0 := by
+  refine ⟨fun i hi => ⟨rfl, ?_, rfl⟩, by decide, fun j hj => ?_, by decide⟩
+  · simp only [sSt, exSt, decide_eq_true_eq]; omega
+  · have : 1000 + j ≠ 1003 := by omega
+    simp [sSt, this]
+
+/-! ## on the tight memory: nothing but the declared cells exists, and nothing faults -/
+
+/-- exactly the cells `[d, d+k)` are mapped, readable and writable: every access outside them faults -/
+def Tight (st : St) (d k : Nat) : Prop :=
+  ∀ a, st.mapped a = decide (d ≤ a ∧ a < d + k) ∧ st.wr a = decide (d ≤ a ∧ a < d + k) ∧
+       st.rd a = decide (d ≤ a ∧ a < d + k)
+
+theorem Tight.rw {st : St} {d k : Nat} (h : Tight st d k) : RW st d k := by
+  intro i hi
+  obtain ⟨h1, h2, h3⟩ := h (d + i)
+  have : d ≤ d + i ∧ d + i < d + k := by omega
+  exact ⟨by rw [h1]; simpa using this, by rw [h2]; simpa using this, by rw [h3]; simpa using this⟩
+
+/-- **`mem_prim_set` on the tight memory** (only the `len mod 2^32` addressed cells exist): no fault, no
+stray access — the primitive touches nothing but those cells, for every length, address and value. -/
+theorem mem_prim_set_C18_tight (dest len value : Nat) (st : St) (ht : Tight st dest (len % U32))
+    (h0 : st.strays = []) :
+    ∃ st', exec (mem_prim_set 1 dest len value) st = .ok ((), st') ∧ st'.strays = [] ∧
+      ∀ i, i < len % U32 → st'.data (dest + i) = value % 256 := by
+  obtain ⟨st', he, hf⟩ := mem_prim_set_ok dest len value st ht.rw
+  exact ⟨st', he, by rw [hf.same.strays, h0], hf.inside⟩
+
+/-- **`memset_s` on the tight memory** (only the `dmax` declared cells exist, object size unknown): for ALL
+arguments — valid or not — the call returns (no fault) without a stray access: neither the success path nor
+any error path touches a byte outside `dest[0..dmax)`. -/
+theorem memset_s_C18_tight (dest dmax value n : Nat) (st : St) (ht : Tight st dest dmax) (h0 : st.strays = []) :
+    ∃ code st', exec (memset_s dest dmax value n none) st = .ok (code, st') ∧ st'.strays = [] := by
+  obtain ⟨code, st', he, ho, _⟩ := memset_s_spec dest dmax value n none st ht.rw
+  refine ⟨code, st', he, ?_⟩
+  by_cases hc : code = EOK
+  · rw [(ho.ok hc).1.same.strays, h0]
+  · rw [(ho.fail hc).1.strays, h0]
+
+/-- **`memzero_s` on the tight memory**: for all arguments the call returns without fault or stray access. -/
+theorem memzero_s_C18_tight (dest len : Nat) (destbos : Bos) (st : St) (ht : Tight st dest len)
+    (h0 : st.strays = []) :
+    ∃ code st', exec (memzero_s dest len destbos) st = .ok (code, st') ∧ st'.strays = [] := by
+  obtain ⟨code, st', he, ho, _⟩ := memzero_s_spec dest len destbos st ht.rw
+  refine ⟨code, st', he, ?_⟩
+  by_cases hc : code = EOK
+  · rw [(ho.ok hc).same.strays, h0]
+  · rw [(ho.fail hc).1.strays, h0]
+
+/-- a tight memory of 100 cells at 4096 -/
+def tSt : St :=
+  { data := fun _ => 7, mapped := fun a => decide (4096 ≤ a ∧ a < 4096 + 100), rd := fun a => decide (4096 ≤ a ∧ a < 4096 + 100),
+    wr := fun a => decide (4096 ≤ a ∧ a < 4096 + 100) }
+
+example : Tight tSt 4096 100 ∧ tSt.strays = [] := ⟨fun _ => ⟨rfl, rfl, rfl⟩, rfl⟩
+
 end SafeC.Props.C18
